@@ -181,6 +181,56 @@ def direct_property(ops):
     return None
 
 
+# ---- the consumers: every parser asks the Ruler for the chain it documents, and calls what it is given ----
+CONSUMER_DOCS = {
+    # chain -> a document in which that terminator chain is consulted (a continuation line after the construct)
+    "paragraph": "alpha\nbeta\n",
+    "reference": "[foo]: /url 'multi\nline'\n\n[foo]\n",
+    "blockquote": "> quoted\nlazy\n",
+    "list": "- item\n\n- second\nlazy\n",
+}
+
+
+def consumer_property(preset="commonmark"):
+    """A probe rule registered with alt=[chain] (silent calls recorded, never matches) must be called
+    in silent mode while a document that consults that chain is parsed iff the Ruler reports it active;
+    a probe with alt=[] is called non-silently at every block start.  None or a description."""
+    from markdown_it import MarkdownIt
+
+    for chain, doc in CONSUMER_DOCS.items():
+        for enabled in (True, False):
+            md = MarkdownIt(preset)
+            if chain not in md.get_active_rules()["block"]:
+                continue  # the rule that consults this chain is off under this preset
+            calls = {"silent": 0, "loud": 0}
+
+            def probe(state, startLine, endLine, silent, calls=calls):
+                calls["silent" if silent else "loud"] += 1
+                return False
+            md.block.ruler.before("paragraph", "probe_" + chain, probe, {"alt": [chain]})
+            if not enabled:
+                md.disable("probe_" + chain)
+            reported = "probe_" + chain in md.get_active_rules()["block"]
+            in_chain = probe in md.block.ruler.getRules(chain)
+            try:
+                md.parse(doc)
+            except Exception as e:  # noqa: BLE001
+                return {"what": "parse raised with a probe rule registered", "chain": chain, "error": repr(e)}
+            if reported != enabled or in_chain != enabled:
+                return {"what": "probe rule misreported", "chain": chain, "enabled": enabled, "reported_active": reported,
+                        "in_getRules(chain)": in_chain}
+            if (calls["silent"] > 0) != enabled:
+                return {"what": "a rule reported in getRules(%r) is %s while a document that consults that chain is parsed"
+                                % (chain, "never called" if enabled else "called although disabled"),
+                        "preset": preset, "chain": chain, "document": doc, "enabled": enabled, "silent_calls": calls["silent"],
+                        "replay": "md=MarkdownIt(%r); md.block.ruler.before('paragraph','probe',fn,{'alt':[%r]}); md.parse(%r)"
+                                  % (preset, chain, doc)}
+            if (calls["loud"] > 0) != enabled:
+                return {"what": "main-chain call of the probe does not follow its enabled state", "chain": chain,
+                        "enabled": enabled, "loud_calls": calls["loud"]}
+    return None
+
+
 def encode_history(ops):
     return sx([11, [list(o) for o in ops]])
 
@@ -494,6 +544,13 @@ def run(ctx) -> int:
             direct_fail = (h, d)
             break
 
+    if direct_fail is None:
+        for preset in ("commonmark", "js-default", "zero"):
+            cp = consumer_property(preset)
+            if cp is not None:
+                direct_fail = ("consumer", cp)
+                break
+
     # 2. facade histories
     registry = gen["rules"]
     fh = []
@@ -522,7 +579,9 @@ def run(ctx) -> int:
 
     # ---- outcome
     proofs = ctx["proofs"]
-    if direct_fail:
+    if direct_fail and direct_fail[0] == "consumer":
+        rep.violation("applied-ne-reported", {"consumer": direct_fail[1]})
+    elif direct_fail:
         h, d = direct_fail
         small = shrink_list(h, lambda c: direct_property(c) is not None)
         rep.violation("applied-ne-reported", {"history": small, "observed": direct_property(small),
